@@ -342,6 +342,34 @@ def cell_coverage(prog, cd, rep, rule="eq-cell-coverage"):
                 rep.fail(rule, u.cls.module.path.name, f"{u.cls.name}.__eq__", g, f"cells `{norm(subs[0])}` are compared over range({got[0]}) x range({got[1]}) but the array's axes have extents {expected[0]} x {expected[1]}: some cells are never compared")
 
 
+def exact_scalars(prog, cd, rep, rule="eq-exact-scalars"):
+    """'Unequal to a block that differs in any header scalar': a field the writer stores as ONE number (frequency, start time, counts)
+    is compared exactly.  np.isclose / np.allclose / math.isclose on it calls two blocks with different stored values equal
+    (the tolerance is relative: 31 ms at a start time of one hour)."""
+    from ..layout import Field, walk_terms
+    n = 0
+    for u in cd.units.values():
+        c = u.cls
+        f = c.get("__eq__") if c is not None else None
+        if f is None:
+            continue
+        scalars = set()
+        for t in walk_terms(u.wterms):
+            if isinstance(t, Field) and t.role == "data" and t.count is None and not t.dt.shape and t.dt.kind in ("i", "u", "f") and t.value is not None:
+                v = t.value
+                if isinstance(v, ast.Attribute) and isinstance(v.value, ast.Name) and v.value.id == "self":
+                    # only attributes the constructor does not turn into arrays
+                    scalars.add(v.attr)
+        sn = f.self_name or "self"
+        for call in [x for x in ast.walk(f.node) if isinstance(x, ast.Call) and norm(x.func) in ("np.isclose", "np.allclose", "numpy.isclose", "numpy.allclose", "math.isclose", "isclose")]:
+            for a in call.args[:2]:
+                if isinstance(a, ast.Attribute) and isinstance(a.value, ast.Name) and a.value.id == sn and a.attr in scalars:
+                    n += 1
+                    rep.fail(rule, c.module.path.name, f"{c.name}.__eq__", call, f"the stored scalar `{a.attr}` is compared with `{norm(call.func)}` (a relative tolerance): blocks whose `{a.attr}` differ "
+                             "by less than that compare equal although they encode differently", construct=f"{c.name}.__eq__ :: tolerant {a.attr}")
+    rep.ok(rule, "no __eq__ compares a single stored number with a tolerance", nontrivial=True)
+
+
 def run(prog, rep):
     cd = Codecs(prog)
     cd.flag_errors(rep)
@@ -353,6 +381,10 @@ def run(prog, rep):
     # the byte-level comparisons are faithful to content only while the numeric primitive encodes CONTENT (element order C,
     # fixed dtype), not the memory layout of the array that happens to hold it
     rep.attempt(PR.tdftype_primitives, prog, rep)
+    # .. and 'equal to the block obtained by encoding and decoding it' needs the channel numbers to come back as stored: the decoders
+    # rebuild channel-mapped blocks through the adders, whose pairing / explicit-channel rules are C15's
+    from .c01 import equivalence_discharge
+    equivalence_discharge(prog, cd, rep, extra=("explicit-channel-honoured",))
     rep.explanation = (
         "the oracle for 'content' is the writer: every attribute the layout term of C._write reads must take part in C.__eq__ "
         "(eq-coverage) unless __eq__ is byte-level (serialises both operands, faithful by C01); element-wise zip comparisons "
@@ -428,6 +460,7 @@ def run(prog, rep):
                 if k.get("__eq__") is None and not any(x[0] == a for x in info.elementwise):
                     rep.fail("eq-defined", k.module.path.name, k.name, k.node, f"{k.name} (element of {u.cls.name}.{a}) defines no __eq__", construct=f"class {k.name} :: __eq__")
     rep.floor("eq methods", n_eq, 18)
+    rep.attempt(exact_scalars, prog, cd, rep)
     rep.attempt(eq_type_guard, prog, rep)
     rep.attempt(allclose_on_sequences, prog, cd, rep)
     cell_coverage(prog, cd, rep)
